@@ -20,7 +20,10 @@ LEVEL_TEXT = ("Coq theorems over executable models of (1) the HDF5 store with h5
               "for the former code (None fields skipped; nested dictionaries never cleared; str hyper-parameters read as bytes) and, for the "
               "code as it stands, for a hyper-parameter whose value is None (dropped); (2) a heap model of copy/deepcopy: copies observe "
               "the source's values, a deep copy lives in freshly allocated cells closed under reachability and no mutation of them is visible "
-              "through the source; (3) VCF import (positionally exact; with grouping a stable sort + run-length metadata) and the data-frame "
+              "through the source; (3) VCF import (positionally exact; with grouping a stable sort + run-length metadata), stated also from the TEXT of the "
+              "file: a data line -> the attributes cyvcf2 derives (CHROM, POS as a 32-bit field, start, end = start + len(REF), ID) -> the record each "
+              "importer builds through the attribute selectors regenerated from both from_vcf bodies; every array equals its column of the file for "
+              "every coordinate below 2^31, REF / ALT (deletions, insertions, MNPs) play no part, and a coordinate >= 2^31 is refuted (known finding); and the data-frame "
               "codecs (Morgan genetic maps lossless; the egmap file pair reproduces every extended map, marker names and function codes "
               "included, and both map constructors keep the interpolation kind / fill value they are given - the two defects that were "
               "repaired in the library are kept as refutations about the former definitions old_egmap_to / old_egmap_from / "
@@ -34,7 +37,9 @@ LEVEL_TEXT = ("Coq theorems over executable models of (1) the HDF5 store with h5
               "theorems turn (Gen/C16_Kernel.v: field name, the three delete conditions and the recursive call of h5py_File_write_dict, the "
               "decode condition of h5py_File_read_dict, the group-name normalisation of all 18 to_hdf5/from_hdf5 bodies, the unit conversions, "
               "default units, constructor spline arguments, egmap column names, the condition under which from_egmap reads an optional column and by-name/by-position column selections of the table readers, "
-              "the long-table layout of the variance-matrix codec, the mode of `h5py.File(filename, <mode>)` and the exact set of statements that touch the "
+              "the long-table layout of the variance-matrix codec, for both from_vcf bodies (matched statement by statement) the attribute expression appended to "
+              "vrnt_chrgrp / vrnt_phypos / vrnt_name, the allele columns kept, the transposition, the summed axis and the constructor routing, "
+              "the mode of `h5py.File(filename, <mode>)` and the exact set of statements that touch the "
               "file object in each of the 12 to_hdf5 bodies) are extracted from the source by ast translators on every run; the "
               "round-trip theorems are restated about the code written with the generated definitions, proved equal to the hand model by "
               "conversion, so a changed expression leaves the obligations undischarged whatever the sampled cases exercise. The models are "
@@ -42,7 +47,7 @@ LEVEL_TEXT = ("Coq theorems over executable models of (1) the HDF5 store with h5
               "cyvcf2, the typed readers called directly, and copy/mutation experiments.")
 LEVEL_NOTE = ("trusted: Coq kernel + vm_compute, PrimFloat primitives (data-frame codecs), h5py/HDF5 (modelled as a path->node map with "
               "create/delete/membership), pandas (frames are compared cell by cell; CSV text is not modelled: the frame pandas parses back is an "
-              "input of the model), cyvcf2 (VCF text -> records), numpy copy semantics (ndarray.__copy__/__deepcopy__ duplicate the buffer). "
+              "input of the model), cyvcf2 (VCF text -> attributes of a record; its 32-bit POS, 64-bit start/end are modelled as observed), numpy copy semantics (ndarray.__copy__/__deepcopy__ duplicate the buffer). "
               "Theorems are about the Gallina models; the tie to the code is differential on generated inputs plus the regenerated field tables. "
               "Not proved: general (all-size) round trips of the wide/long data-frame "
               "codecs other than Morgan genetic maps and egmap files, class-level (all attributes at once) copy equality. "
@@ -63,7 +68,11 @@ RULE = ("case kinds from one PRNG: h5 (class, group name incl. nested/non-ASCII/
         "each of copy/deepcopy/.copy()/.deepcopy() in turn, source possibly itself a copy, hyper-parameter dictionaries with ndarray / list / "
         "dictionary members, non-default interpolation kinds; then every mutable value reachable from the copy is mutated in place: arrays, "
         "dictionary members, lists, members of member dictionaries), vcf (1-4 samples, 1-6 phased diploid records, unsorted, '.' identifiers, non-ASCII "
-        "names, phased and unphased class, with and without grouping, a share with tied coordinates), df (8 classes via pandas or CSV with "
+        "names, phased and unphased class, with and without grouping, a share with tied coordinates; and 'rich' files cycling importer x "
+        "auto_group_vrnt: deletions (REF of 2-9 bases), insertions, MNPs, several ALT alleles and symbolic ones, '.' / duplicated / 'None' / "
+        "non-ASCII identifiers, 1-4 contigs (numbers up to 2^31+5) whose header order is as drawn and records in file, contig-block or sorted "
+        "order, coordinates 1..40, up to 10^7, up to 2^30, at 2^31-1 and - one case in seven - beyond 2^31, 130-300 samples in one case out of "
+        "nine, duplicated coordinates, all four phased calls; every vcf case is evaluated in Coq from the text of its lines), df (8 classes via pandas or CSV with "
         "matching options, columns addressed by name or by position, dyadic and awkward floats, sorted/unsorted and absent labels, cM/M units, "
         "default arguments on both sides, interpolation kind handed to the reader, ExtendedGeneticMap through to_egmap/from_egmap and through "
         "hand-written egmap files with the documented header); non-trivial = an object with both present "
@@ -71,7 +80,7 @@ RULE = ("case kinds from one PRNG: h5 (class, group name incl. nested/non-ASCII/
 TRUSTED = ["h5py/HDF5 semantics: membership test, delete of a group removes its subtree, create_dataset creates missing groups and refuses existing names",
            "h5py.File modes as modelled by open_named: 'a' keeps the content, 'w' truncates, 'r+' needs an existing file, 'x'/'w-' refuse one; an open handle is used as it is",
            "pandas: DataFrame construction, get_loc, to_numpy; read_csv/to_csv treated as a black box whose parsed frame is observed",
-           "cyvcf2 0.34: VCF text -> (CHROM, POS, ID, genotypes)", "numpy: ndarray.__copy__/__deepcopy__ copy the buffer; lexsort/argsort(mergesort) are stable",
+           "cyvcf2 0.34: VCF text -> Variant attributes (CHROM, ID = None for '.', genotypes; POS = the coordinate as a 32-bit integer, start = coordinate - 1, end = start + len(REF), as observed)", "numpy: ndarray.__copy__/__deepcopy__ copy the buffer; lexsort/argsort(mergesort) are stable",
            "group metadata attribute names (taxa_grp_*, vrnt_chrgrp_*) are listed in the harness, not derived from the source",
            "harness/translate/c16_kernel.py (ast -> Gen/C16_Kernel.v, fail closed on any statement shape it does not recognise) and the entry-point audit "
            "(every class / persistence method / helper of the anchored modules is classified as covered or skipped, at run time)",
